@@ -107,7 +107,9 @@ MANIFEST_TEXT = {
     "C01": {"text": "Theorems: allocate_bytes raises ENOSPC only when fewer than n+1 allocatable clusters lie behind the hint (all tables, all n); directory scan "
                     "returns exactly the written entries; alias never shadows. Refinement (c01_fs_step, c01_fs_history): in every reachable state of the "
                     "filesystem-level model Model.Fs (in-memory tree + FAT + hint, operations written after PyFatFS/FatIO call by call) every call answers like "
-                    "the reference filesystem (a set of paths) or stops with out-of-space and changes nothing; after any history the tree is the reference's. "
+                    "the reference filesystem (a set of paths) or stops with out-of-space and changes nothing; after any history the tree is the reference's; "
+                    "c01_fs_enospc_means_full: the allocation hint never runs ahead of a free cluster, so in every reachable state out-of-space means the "
+                    "whole volume has at most n allocatable clusters. "
                     "Model.Fs is tied to the code by lock-step execution (suite fsmodel: result, whole FAT, hint, every entry, device after every call); "
                     "file contents, names and fs.base's compound helpers are decided by differential execution against MemoryFS (suite ns), not by a theorem.",
             "note": _NOTE + "Reference = fs.memoryfs.MemoryFS with fs.base's compound helpers; create() on a directory is FileExpected (pinned by the repo's tests).",
@@ -129,7 +131,8 @@ MANIFEST_TEXT = {
                     "entries untouched; flush/parse identity. Theorem c04_fs_reachable: every reachable state of the filesystem-level model Model.Fs (all histories of "
                     "create/create(wipe)/makedir/remove/removedir/write/truncate, failed calls included) has a FAT that represents exactly the chains owned by the "
                     "directory tree (no cross-link: c04_fs_no_crosslink, no leak: c04_fs_no_leak), the follower returns each entry's chain (c04_fs_follow), every "
-                    "directory fits its chain. Image-level statement decided by the independent checker on real closed images.",
+                    "directory fits its chain, every file's chain has exactly max(1, ceil(size/cluster)) clusters (c04_fs_size_matches_chain; the translated "
+                    "calc_num_clusters is proved to be that ceiling). Image-level statement decided by the independent checker on real closed images.",
             "note": _NOTE + "Model.Alloc is tied to allocate_bytes/get_cluster_chain/free_cluster_chain by component correspondence (suite volume), Model.Fs to the "
                     "primitives by lock-step execution (suite fsmodel).",
             "technique": "Lean 4 invariant proof by induction over operation sequences + independent fsck on real images"},
